@@ -7,9 +7,13 @@ patch="$(readlink -f "$1")"; id="$2"; tier="${3:-quick}"; seed="${4:-1}"
 copy="$(mktemp -d /var/tmp/seedcopy-XXXXXX)"
 trap 'rm -rf "$copy"' EXIT
 rsync -a --exclude .git /repo/ "$copy/"
-if ! (cd "$copy" && git init -q . 2>/dev/null; git -C "$copy" apply --whitespace=nowarn "$patch"); then
-  # fall back to patch(1)
-  (cd "$copy" && patch -p1 --silent < "$patch") || { echo "PATCH-DOES-NOT-APPLY"; exit 3; }
+if ! (cd "$copy" && git init -q . 2>/dev/null; git -C "$copy" apply --whitespace=nowarn "$patch" 2>/dev/null); then
+  # the patch was written against an earlier commit (SEED_BASE): evaluate it there
+  base="${SEED_BASE:-4609ca0}"
+  rm -rf "$copy"; mkdir -p "$copy"
+  git -C /repo archive "$base" | tar -x -C "$copy"
+  (cd "$copy" && git init -q . 2>/dev/null; git -C "$copy" apply --whitespace=nowarn "$patch") || { echo "PATCH-DOES-NOT-APPLY (HEAD and $base)"; exit 3; }
+  echo "NOTE: patch does not apply to HEAD; evaluated on base commit $base"
 fi
 cd "$(dirname "$0")/.."
 out="$(mktemp /var/tmp/seedout-XXXXXX)"
